@@ -4,7 +4,7 @@
 #[verifier::external_body]
 pub struct Allocator { x: u8 }
 pub uninterp spec fn node_tree(a: Allocator, n: NodePtr) -> Option<Tree>;
-pub uninterp spec fn alloc_limit_hit(a: Allocator) -> bool;
+pub uninterp spec fn alloc_full(a: Allocator) -> bool;
 pub open spec fn alloc_ext(old_a: Allocator, new_a: Allocator) -> bool {
     forall|n: NodePtr| #[trigger] node_tree(old_a, n) is Some ==> node_tree(new_a, n) == node_tree(old_a, n)
 }
@@ -45,14 +45,14 @@ impl Allocator {
     pub fn new_atom(&mut self, v: &[u8]) -> (r: Result<NodePtr, EvalErr>)
         ensures alloc_ext(*old(self), *final(self)),
             r matches Ok(n) ==> node_tree(*final(self), n) == Some(Tree::Atom(v@)),
-            r is Err ==> alloc_limit_hit(*old(self)),
+            r is Err ==> alloc_full(*old(self)),
     { unimplemented!() }
     #[verifier::external_body]
     pub fn new_pair(&mut self, a: NodePtr, b: NodePtr) -> (r: Result<NodePtr, EvalErr>)
         requires node_tree(*old(self), a) is Some, node_tree(*old(self), b) is Some
         ensures alloc_ext(*old(self), *final(self)),
             r matches Ok(n) ==> node_tree(*final(self), n) == Some(Tree::Pair(Box::new(node_tree(*old(self), a)->Some_0), Box::new(node_tree(*old(self), b)->Some_0))),
-            r is Err ==> alloc_limit_hit(*old(self)),
+            r is Err ==> alloc_full(*old(self)),
     { unimplemented!() }
 }
 // R7: equality between byte containers vstd has no PartialEq spec for
